@@ -21,9 +21,10 @@ CREATED = datetime(2019, 1, 1, tzinfo=timezone.utc)
 NEVER = 987654321
 _G = {}
 
-EVENT_WRITES = ("ins1", "bulk2", "bulk49", "bulk50", "bulk51", "mix", "rep", "repl", "del")
+EVENT_WRITES = ("ins1", "bulk2", "bulk49", "bulk50", "bulk51", "mix", "ups", "ups2", "rep", "repl", "del")
 BUCKET_OPS = ("mkB2", "updB2", "delB2", "updB1")
 READS = ("get", "get_id", "count")
+FAULT_OPS = ("delB2x", "updB2x", "staleB2bulk")  # operations that must raise and change nothing
 SINGLE_OR_BUCKET = ("ins1", "rep", "repl", "del", "mkB2", "updB2", "delB2", "updB1", "insB2")
 
 
@@ -85,6 +86,7 @@ class World:
         self.last_flush = 0.0
         self.seen_commits = 0
         self.k = 0
+        self.staleB2 = None
         # initial state: bucket B1 with two single-inserted events (ids known), all flushed by a read
         kwb = bucket_kwargs("B1")
         self.ds.create_bucket("B1", **kwb)
@@ -113,7 +115,9 @@ class World:
         kn = len(self.known())
         live = len(self.m.events["B1"])
         for op in alphabet:
-            if op in ("mix", "rep", "del", "get_id") and kn == 0:
+            if op in ("mix", "rep", "del", "get_id", "ups") and kn == 0:
+                continue
+            if op == "ups2" and kn < 2:
                 continue
             if op == "repl" and live == 0:
                 continue
@@ -122,6 +126,10 @@ class World:
             if op in ("updB2", "delB2", "insB2") and "B2" not in self.m.meta:
                 continue
             if op == "insB2" and len(self.m.events["B2"]) >= 1:
+                continue
+            if op in ("delB2x", "updB2x") and "B2" in self.m.meta:
+                continue
+            if op == "staleB2bulk" and ("B2" in self.m.meta or self.staleB2 is None):
                 continue
             ops.append(op)
         return ops
@@ -158,6 +166,20 @@ class World:
             m._add(it2)
             m.write()
             m.events["B1"].append({"serial": json.loads(it2[4])["n"], "id": None, "item": it2})
+        elif op in ("ups", "ups2"):
+            tgts = self.known()[: 1 if op == "ups" else 2]
+            evs, its = [], []
+            for t in tgts:
+                e, it = m.new_event("B1")
+                e.id = t["id"]
+                evs.append(e)
+                its.append(it)
+            ds["B1"].insert(evs)
+            for t, it in zip(tgts, its):
+                m._rm(t["item"])
+                m._add(it)
+                m.write()
+                t["item"], t["serial"] = it, json.loads(it[4])["n"]
         elif op == "rep":
             tgt = self.known()[0]
             e, it = m.new_event("B1")
@@ -188,9 +210,19 @@ class World:
             ds["B1"].get_by_id(self.known()[0]["id"])
         elif op == "count":
             ds["B1"].get_eventcount()
+        elif op == "delB2x":
+            ds.delete_bucket("B2")
+        elif op == "updB2x":
+            ds.update_bucket("B2", type_id="nope")
+        elif op == "staleB2bulk":
+            e1, _ = m.new_event("B2")
+            e2, _ = m.new_event("B2")
+            self.staleB2.insert([e1, e2])
         elif op == "mkB2":
             kw = bucket_kwargs("B2")
             ds.create_bucket("B2", **kw)
+            if self.staleB2 is None:
+                self.staleB2 = ds["B2"]
             m.meta["B2"] = kw
             m._add(bk_item("B2", kw))
             m.write()
@@ -239,7 +271,11 @@ class World:
 def replay(backend, wdir, hist):
     w = World(backend, wdir)
     for op in hist:
-        w.apply(op)
+        try:
+            w.apply(op)
+        except Exception:
+            if op not in FAULT_OPS:
+                raise
         w.note_commits()
     return w
 
@@ -255,13 +291,17 @@ def abstract(w, imager):
         if pending == 0:
             w.last_flush = K.VNOW[0]
     el = K.VNOW[0] - w.last_flush
+    # elapsed class: exact seconds up to 12; idle periods of whole days are kept apart together
+    # with their remainder (a seeded `timedelta.seconds > 10` test forgets the days)
+    elc = min(int(el), 12) if el < 86400 else ("days", min(int(el % 86400), 12))
     return (
         S.hidden_state(w.ds) if w.backend == "sqlite" else None,
         pending,
-        min(int(el), 12),
+        elc,
         min(len(w.known()), 2),  # exact up to the number of seeded events: enabledness of del/rep/mix
         min(len(w.m.events["B1"]), 2),
-        ("B2" in w.m.meta, len(w.m.events["B2"])),
+        ("B2" in w.m.meta, len(w.m.events["B2"]), w.staleB2 is not None),
+        bool(getattr(w.tracer.conn, "in_transaction", False)),  # an open transaction is state too (left open by a failed op?)
     )
 
 
@@ -288,7 +328,10 @@ def run_last_op(w, op, imager, u, oracle):
         exc = f"{type(e).__name__}: {e}"
     w.tracer.hook = None
     w.note_commits()
-    if exc:
+    if op in FAULT_OPS:
+        if not exc:
+            probs.append(("absent-bucket-op-did-not-raise", f"{op} on a bucket that does not exist returned normally"))
+    elif exc:
         return [("raised", f"{op}: {exc}")], None
     sig, items = imager.image()
     points.append(("<return>", sig, items))
